@@ -478,6 +478,38 @@ func c02(c *core.Ctx, r *core.Report) {
 			r.Undecided("anchor:limit-predicate", "-", "no bool function of internal/workers compares the id counter with maxIterations")
 			return
 		}
+		// the predicate itself: true only once an allocation was refused, i.e. the attempt counter is strictly above the
+		// limit; at exactly the limit every started iteration was allowed and superseded work is still a real drop
+		strict := 0
+		an.Flatten(lim, 2, nil, func(e an.Event) {
+			bo, ok := e.Instr.(*ssa.BinOp)
+			if !ok {
+				return
+			}
+			isCounterLoad := func(v ssa.Value) bool {
+				call, ok := an.Strip(v).(*ssa.Call)
+				if !ok {
+					return false
+				}
+				t := an.Callee(call)
+				return t != nil && t.Pkg != nil && t.Pkg.Pkg.Path() == "sync/atomic" && t.Name() == "Load"
+			}
+			isLimit := func(v ssa.Value) bool {
+				f, owner := an.TerminalField(v)
+				return f != nil && an.IsNamed(owner, workersPkg, "PoolManager") && !an.IsNamed(f.Type(), "sync/atomic", "Uint64")
+			}
+			op := bo.Op
+			x, y := bo.X, bo.Y
+			if isLimit(x) && isCounterLoad(y) {
+				x, y, op = y, x, map[token.Token]token.Token{token.LSS: token.GTR, token.LEQ: token.GEQ, token.GTR: token.LSS, token.GEQ: token.LEQ}[op]
+			}
+			if !isCounterLoad(x) || !isLimit(y) {
+				return
+			}
+			strict++
+			r.Check(op == token.GTR, core.FuncName(lim)+"#strict", an.Pos(c, bo), "the limit counts as reached only when the attempt counter exceeds it", sprintf("the limit predicate compares the attempt counter with the limit using %s: with exactly max-iterations iterations started and none refused, work superseded by the next tick is discarded silently instead of being reported dropped", op))
+		})
+		r.Floor("comparisons of the attempt counter with the limit in the predicate", strict, 1)
 		for _, call := range dropCalls {
 			fn := call.Parent()
 			key := core.FuncName(fn) + "#drop-guard"
